@@ -24,9 +24,9 @@ rm -f $pkgdir/zz_demo_test.go; git checkout -q -- .
 # 2. mutant: build, suite, demo
 if ! git apply $src/$m.diff; then echo "$res patch=NOAPPLY"; cd /; git -C /repo worktree remove --force $wt; exit 1; fi
 if go build ./... >/dev/null 2>&1 && go vet ./... >/dev/null 2>&1; then res="$res build=ok"; else res="$res build=FAIL"; fi
-if unshare -n bash -c "ip link set lo up; go test -vet=off -count=1 -timeout 20m ./..." > /tmp/vseed_${id}_${m}.suite.log 2>&1; then res="$res suite=pass"; else
+if unshare -n bash -c "ip link set lo up; go test -vet=off -count=1 -timeout 6m ./..." > /tmp/vseed_${id}_${m}.suite.log 2>&1; then res="$res suite=pass"; else
   # one retry (machine may be loaded)
-  if unshare -n bash -c "ip link set lo up; go test -vet=off -count=1 -timeout 20m ./..." > /tmp/vseed_${id}_${m}.suite.log 2>&1; then res="$res suite=pass(retry)"; else res="$res suite=FAIL"; fi
+  if unshare -n bash -c "ip link set lo up; go test -vet=off -count=1 -timeout 6m ./..." > /tmp/vseed_${id}_${m}.suite.log 2>&1; then res="$res suite=pass(retry)"; else res="$res suite=FAIL"; fi
 fi
 [ -f $win ] && git apply $win
 cp $demo $pkgdir/zz_demo_test.go
